@@ -491,6 +491,15 @@ def c14_replay(path):
     return 0
 REPLAYERS['C14'] = c14_replay
 
+def _c15_counts(cov):
+    # one evaluation = one save under one injected fault (the generated objects are the carriers): report the measured fault counts
+    objects = cov['evaluations']; distinct_objects = cov['distinct_nontrivial']
+    c = cov.get('counters', {})
+    cov['objects'] = objects; cov['distinct_objects'] = distinct_objects
+    cov['evaluations'] = c.get('faults_injected', 0) + objects           # + the fault-free saves
+    # every (object, fault kind, offset) triple is distinct when the objects are; otherwise count conservatively
+    cov['distinct_nontrivial'] = c.get('faults_after_first_byte', 0) if distinct_objects == objects else distinct_objects
+
 @reg('C15')
 def c15(tier):
     import os, shutil
@@ -518,7 +527,7 @@ def c15(tier):
                              assumptions=['faults: missing directory, path through a file, directory as target, read-only file (effective uid dropped), /dev/full, RLIMIT_FSIZE=k with SIGXFSZ ignored (persistent), RLIMIT_FSIZE=k lifted by the SIGXFSZ handler (one write refused, later ones accepted)',
                                           'objects whose output is <= 6000 bytes (thorough: 20000) get a failure injected at EVERY offset; larger ones every 97th (thorough 7th) byte plus block and stream-buffer boundaries +-1',
                                           'any std::exception counts as "reported"; the class is recorded in counters'],
-                             extra_cov={'directed_objects': sorted(objs)})
+                             extra_cov={'directed_objects': sorted(objs)}, post_cov=_c15_counts)
     finally:
         shutil.rmtree(d, ignore_errors=True)
 
